@@ -11,6 +11,8 @@ import (
 	"errors"
 
 	"github.com/btcsuite/btcd/btcutil/v2"
+	"github.com/btcsuite/btcd/btcutil/v2/gcs"
+	"github.com/btcsuite/btcd/btcutil/v2/gcs/builder"
 	"github.com/btcsuite/btcd/chainhash/v2"
 	"github.com/btcsuite/btcd/wire/v2"
 	"github.com/lightninglabs/neutrino/headerfs"
@@ -22,6 +24,7 @@ type vpUtxoChain struct {
 	finalTip  int
 	snapshots int
 	hashes    []chainhash.Hash
+	filters   []*gcs.Filter // model filters by height, built on demand
 }
 
 func (c *vpUtxoChain) heightOf(h *chainhash.Hash) int {
@@ -55,6 +58,16 @@ func vpBlockTouches(blk *wire.MsgBlock, script []byte, funding *wire.MsgTx, fhas
 		}
 	}
 	return false
+}
+
+// vpUtxoFilterSource: the chain source behind blockFilterMatches.
+type vpUtxoFilterSource struct {
+	*vpRescanChain
+	get func(hash chainhash.Hash) (*gcs.Filter, error)
+}
+
+func (c *vpUtxoFilterSource) GetCFilter(hash chainhash.Hash, _ wire.FilterType, _ ...QueryOption) (*gcs.Filter, error) {
+	return c.get(hash)
 }
 
 type vpUtxoReq struct {
@@ -189,6 +202,32 @@ func VerifH_C10_scan() {
 			}
 		}
 	}
+	vpModelFilters = nil
+	filterSrc := &vpUtxoFilterSource{vpRescanChain: &vpRescanChain{}, get: func(hash chainhash.Hash) (*gcs.Filter, error) {
+		enqueueDue()
+		if fails() {
+			return nil, errInjected
+		}
+		h := chain.heightOf(&hash)
+		if h < 0 {
+			return nil, errors.New("vp: unknown block")
+		}
+		for len(chain.filters) <= h {
+			chain.filters = append(chain.filters, nil)
+		}
+		if chain.filters[h] == nil {
+			var scripts [][]byte
+			for _, cand := range [][]byte{vpScriptA, vpScriptB, vpScriptX} {
+				if vpBlockTouches(chain.blocks[h], cand, funding, fhash) {
+					scripts = append(scripts, cand)
+				}
+			}
+			f, _ := gcs.FromNBytes(builder.DefaultP, builder.DefaultM, []byte{1, byte(len(vpModelFilters))})
+			vpModelFilters = append(vpModelFilters, &vpModelFilter{f: f, scripts: scripts})
+			chain.filters[h] = f
+		}
+		return chain.filters[h], nil
+	}}
 	cfg := &UtxoScannerConfig{
 		BestSnapshot: func() (*headerfs.BlockStamp, error) {
 			chain.snapshots++
@@ -208,21 +247,12 @@ func VerifH_C10_scan() {
 			h := chain.hashes[height]
 			return &h, nil
 		},
+		// wired as in NewChainService: the real blockFilterMatches over a chain
+		// source whose GetCFilter serves model filters (exactly the scripts the
+		// block creates or spends) or fails
 		BlockFilterMatches: func(ro *rescanOptions, hash *chainhash.Hash) (bool, error) {
-			enqueueDue()
-			if fails() {
-				return false, errInjected
-			}
-			h := chain.heightOf(hash)
-			if h < 0 {
-				return false, errors.New("vp: unknown block")
-			}
-			for _, e := range ro.watchList {
-				if vpBlockTouches(chain.blocks[h], e, funding, fhash) {
-					return true, nil
-				}
-			}
-			return false, nil
+			matches, _, err := blockFilterMatches(filterSrc, ro, hash)
+			return matches, err
 		},
 		GetBlock: func(hash chainhash.Hash, _ ...QueryOption) (*btcutil.Block, error) {
 			enqueueDue()
